@@ -120,7 +120,7 @@ func runPair(t *testing.T, name string, body func(done func())) {
 	go func() { body(func() {}); close(finished) }()
 	select {
 	case <-finished:
-	case <-time.After(60 * time.Second):
+	case <-time.After(10 * time.Minute): // a deadlock hangs for ever; a loaded machine is merely slow
 		t.Fatalf("DEADLOCK-OR-HANG pair=%s", name)
 	}
 }
@@ -412,7 +412,7 @@ func TestErrorPathsReleaseTheLock(t *testing.T) {
 		go func() { defer close(done); defer func() { recover() }(); f() }()
 		select {
 		case <-done:
-		case <-time.After(3 * time.Second):
+		case <-time.After(30 * time.Second):
 			t.Errorf("DEADLOCK-OR-HANG after %s: a later call on the same client does not return", what)
 		}
 	}
@@ -468,6 +468,9 @@ func TestErrorPathsReleaseTheLock(t *testing.T) {
 	for _, call := range v2calls {
 		func() { defer func() { recover() }(); call.f() }()
 		within(call.name, probe2)
+		if t.Failed() {
+			break // the lock is gone for good: every later probe would wait as long
+		}
 	}
 	// v1
 	c1 := v1.NewClient()
@@ -513,5 +516,8 @@ func TestErrorPathsReleaseTheLock(t *testing.T) {
 	for _, call := range v1calls {
 		func() { defer func() { recover() }(); call.f() }()
 		within(call.name, probe1)
+		if t.Failed() {
+			break
+		}
 	}
 }
